@@ -645,18 +645,29 @@ impl Session {
 // which hold the environment), so a dropped interpreter leaks about 160 KB; over hundreds of thousands of cases
 // that exhausts memory. When a session ends, every environment reachable from the root frame through procedure
 // values is emptied, which breaks those cycles.
-fn collect_envs(v: &Value<f32>, out: &mut Vec<Rc<ruschm::environment::Environment<f32>>>, depth: usize) {
+fn collect_envs(v: &Value<f32>, out: &mut Vec<Rc<ruschm::environment::Environment<f32>>>, depth: usize, seen: &mut Vec<usize>) {
     if depth > 64 {
         return;
+    }
+    // every vector is walked once (vectors that hold one another would otherwise be walked exponentially often)
+    if let Value::Vector(r) = v {
+        let addr = match r {
+            ValueReference::Immutable(rc) => Rc::as_ptr(rc) as *const u8 as usize,
+            ValueReference::Mutable(rc) => Rc::as_ptr(rc) as *const u8 as usize,
+        };
+        if seen.contains(&addr) {
+            return;
+        }
+        seen.push(addr);
     }
     match v {
         Value::Procedure(Procedure::User(_, env)) => out.push(env.clone()),
         Value::Pair(p) => {
             for item in p.iter() {
-                collect_envs(item, out, depth + 1);
+                collect_envs(item, out, depth + 1, seen);
             }
             if let Some(tail) = p.last_cdr() {
-                collect_envs(tail, out, depth + 1);
+                collect_envs(tail, out, depth + 1, seen);
             }
         }
         Value::Vector(r) => {
@@ -668,7 +679,7 @@ fn collect_envs(v: &Value<f32>, out: &mut Vec<Rc<ruschm::environment::Environmen
                 },
             };
             for item in &items {
-                collect_envs(item, out, depth + 1);
+                collect_envs(item, out, depth + 1, seen);
             }
         }
         _ => {}
@@ -678,6 +689,7 @@ fn collect_envs(v: &Value<f32>, out: &mut Vec<Rc<ruschm::environment::Environmen
 pub fn scrub_environment(root: &Rc<ruschm::environment::Environment<f32>>) {
     let mut seen: Vec<*const ruschm::environment::Environment<f32>> = vec![];
     let mut queue = vec![root.clone()];
+    let mut seen_vectors: Vec<usize> = vec![];
     while let Some(env) = queue.pop() {
         let ptr = Rc::as_ptr(&env);
         if seen.contains(&ptr) {
@@ -689,7 +701,7 @@ pub fn scrub_environment(root: &Rc<ruschm::environment::Environment<f32>>) {
             let mut defs = env.iter_local_definitions();
             for (k, v) in &mut *defs {
                 names.push(k.clone());
-                collect_envs(v, &mut queue, 0);
+                collect_envs(v, &mut queue, 0, &mut seen_vectors);
             }
         }
         for n in names {
